@@ -12,7 +12,7 @@ if "--n" in sys.argv:
 seed = 1
 if "--seed" in sys.argv:
     seed = int(sys.argv[sys.argv.index("--seed") + 1])
-LIMITS = {"v3-r1", "v4-r1", "v8-r2", "x8-r5", "n7-r5", "n8-r1", "n8-r5", "k4-r4", "k5-r4", "k7-r2", "j4-r6", "j6-r5", "h01-r2", "h01-r3", "h02-r2", "h02-r3", "h05-r3", "h05-r4", "h07-r2", "h08-r3", "h10-r2", "h12-r4", "g3-r3", "g3-r4", "g4-r2", "g6-r2"}
+LIMITS = {"v3-r1", "v4-r1", "v8-r2", "x8-r5", "n7-r5", "n8-r1", "n8-r5", "k4-r4", "k5-r4", "k7-r2", "j4-r6", "j6-r5", "h01-r2", "h01-r3", "h02-r2", "h02-r3", "h05-r3", "h05-r4", "h07-r2", "h08-r3", "h10-r2", "h12-r4", "g3-r3", "g3-r4", "g4-r2", "g6-r2", "f1-r3", "f2-r2", "f2-r3", "f3-r3", "f3-r4"}
 env = dict(os.environ, GOFLAGS="-mod=mod", GOPROXY="off", GOSUMDB="off", GOTOOLCHAIN="local")
 env.pop("GOWORK", None)
 def files(patch):
